@@ -986,7 +986,7 @@ class SP(Robot):
         init = self.getTopT().TAA
         start_top = self.getTopT().copy()
         found_sol = True
-        solres = sci.optimize.fsolve(fk, init)
+        solres = sci.optimize.fsolve(fk, init, epsfcn = 1e-8)
         sol = tm(solres)
         sol.TMtoTAA()
         self.IK(top_plate_pos = sol, bottom_plate_pos = plate_pos, protect = True)
